@@ -108,8 +108,13 @@ def gen_group_case(rng, safe):
     return ops
 
 
-def gen_cases(rng, tier, boost=1):
-    n = (2500 if tier == "quick" else 60000) * boost
+def gen_cases(rng, tier, boost=1, wide=0, frac=1.0):
+    global WILD_KEYS
+    n = int((2500 if tier == "quick" else 60000) * boost * frac)
+    c12._WIDE = wide
+    base_wild = WILD_KEYS
+    if wide:
+        WILD_KEYS = WILD_KEYS + c12.WIDE_KEYS[wide]
     cases = []
     dist = {"render_safe": 0, "wild": 0}
     for i in range(n):
@@ -117,6 +122,8 @@ def gen_cases(rng, tier, boost=1):
         ops = gen_group_case(rng, safe)
         dist["render_safe" if safe else "wild"] += 1
         cases.append("18 " + ";".join(ops))
+    c12._WIDE = 0
+    WILD_KEYS = base_wild
     return cases, dist
 
 
